@@ -1,4 +1,5 @@
 import logging
+import threading
 import j1939
 from .message_id import FrameFormat
 
@@ -52,6 +53,8 @@ class ControllerApplication:
             self._device_address_announced = j1939.ParameterGroupNumber.Address.NULL
             self._device_address = j1939.ParameterGroupNumber.Address.NULL
             self._device_address_state = ControllerApplication.State.NONE
+        # the claim state is changed by the job thread (claim timer) and by the receive thread (claims of other CAs)
+        self._claim_lock = threading.RLock()
         self._ecu = None
         self._subscribers_request = []
         self._subscribers_acknowledge = []
@@ -143,6 +146,10 @@ class ControllerApplication:
             self._ecu.remove_timer(self._process_claim_async)
 
     def _process_claim_async(self, cookie):
+        with self._claim_lock:
+            return self.__process_claim_async(cookie)
+
+    def __process_claim_async(self, cookie):
         time_to_sleep = 0.500
         if self._device_address_state == ControllerApplication.State.NONE:
             if self._device_address_preferred != None:
@@ -173,6 +180,10 @@ class ControllerApplication:
         return False
 
     def _process_addressclaim(self, mid, data, timestamp):
+        with self._claim_lock:
+            self.__process_addressclaim(mid, data, timestamp)
+
+    def __process_addressclaim(self, mid, data, timestamp):
         """Processes an address claim message
         :param j1939.MessageId mid:
             A MessageId object holding the information extracted from the can_id.
